@@ -226,7 +226,8 @@ Inductive out :=
 | OTokens (acc ref idt : option nat) (scope : list pystr)
 | OUserinfo
 | OActive (scope : list pystr) (client : pystr) (cls : tcls)
-| OInactive.
+| OInactive
+| OLogin.                                (* the authorization endpoint wants the user to authenticate (again); nothing is issued *)
 
 Definition offline : pystr := PS "offline_access".
 Definition openid : pystr := PS "openid".
@@ -248,18 +249,62 @@ Inductive op :=
 | RevokeClient (gi : nat)
 | RemoveGrant (gi : nat)               (* SessionManager.remove_session(session id of grant gi) *)
 | RevokeUser (gi : nat)                (* revoke_sub_tree(session id of grant gi, 0): the whole user session (logout everywhere) *)
-| Tick (d : Z).
+| Tick (d : Z)
+(* An authorization request from a browser that presents the provider's session cookie: the cookie the provider set
+   when it answered the (latest) authorization whose code is in grant prev; no cookie when there is no such grant.
+   `user` is who the authentication method logs in if a login takes place.  fresh = false: state, nonce and every other
+   parameter besides client, scope and redirect_uri are those of the request that created grant prev; fresh = true: a
+   nonce never sent before (so the request differs from every stored one). *)
+| AuthorizeCookie (prev : nat) (user client : pystr) (scope : list pystr) (redirect : pystr) (fresh : bool).
 
 Definition redirect_of (client : pystr) : pystr := PS "https://" ++ client ++ PS ".example.com/cb".
 
-Definition do_authorize (c : cfg) (s : st) (u cl : pystr) (sc : list pystr) : st * out :=
+(* Authorization.create_session / SessionManager.create_grant + AuthzHandling.__call__ + the code minted by
+   create_authn_response: a NEW grant for (u, cl), bound to the redirect_uri and scope of this request; valid_until is
+   that of the authentication event (a new one for a login, the one of the earlier grant on the cookie path) *)
+Definition do_authorize_at (c : cfg) (s : st) (u cl : pystr) (sc : list pystr) (redir : pystr) (valid_until : Z) : st * out :=
   let gsc := match sc with [] => [] | _ => filter_scopes c cl sc end in
-  let g := mkGrant u cl false (now s + c_grant_exp c) gsc sc (redirect_of cl) (now s + c_authn_valid c) false in
+  let g := mkGrant u cl false (now s + c_grant_exp c) gsc sc redir valid_until false in
   let gi := length (grants s) in
   let s1 := mkSt (now s) (grants s ++ [g]) (toks s) (parsed s) in
   match mint s1 gi Code None None (Some 1) (Some (c_code_mints c)) (c_code_exp c) with
   | Ok (s2, id) => (s2, OAuthz id (filter_scopes c cl sc))
   | _ => (s1, OExc)
+  end.
+Definition do_authorize (c : cfg) (s : st) (u cl : pystr) (sc : list pystr) : st * out :=
+  do_authorize_at c s u cl sc (redirect_of cl) (now s + c_authn_valid c).
+
+(* AuthzHandling.__call__ on a grant that exists already (the cookie path kept it): the grant's scope - the scope of
+   the request if the grant has none - goes through Scopes.filter_scopes, exactly as for a new grant *)
+Definition reuse_scope (c : cfg) (g : grant) (sc : list pystr) : list pystr :=
+  filter_scopes c (g_client g) (match g_scope g with [] => sc | gs => gs end).
+Definition regrant (c : cfg) (n : Z) (sc : list pystr) (g : grant) : grant :=
+  mkGrant (g_user g) (g_client g) (g_revoked g) (n + c_grant_exp c) (reuse_scope c g sc) (g_areq_scope g) (g_redirect g)
+          (g_valid_until g) (g_removed g).
+(* request == grant.authorization_request *)
+Definition same_request (g : grant) (sc : list pystr) (redir : pystr) (fresh : bool) : bool :=
+  negb fresh && str_eqb redir (g_redirect g) && list_eqb str_eqb sc (g_areq_scope g).
+
+(* Authorization.setup_auth with a session cookie (UserAuthnMethod.cookie_info, SessionManager.__getitem__) *)
+Definition do_authorize_cookie (c : cfg) (s : st) (prev : nat) (u cl : pystr) (sc : list pystr) (redir : pystr)
+           (fresh : bool) : st * out :=
+  match nth_error (grants s) prev with
+  | None => do_authorize_at c s u cl sc redir (now s + c_authn_valid c)            (* no cookie: a login *)
+  | Some g =>
+      (* the session the cookie names is gone, or it is a session with another client: the cookie says nothing *)
+      if g_removed g || negb (str_eqb (g_client g) cl) then do_authorize_at c s u cl sc redir (now s + c_authn_valid c)
+      else if negb (grant_active (now s) g) then (s, OLogin)                       (* revoked or expired: authenticate again *)
+      else if negb (now s <? g_valid_until g) then (s, OLogin)                     (* the authentication is too old *)
+      else if same_request g sc redir fresh then
+        (* the very same request: the grant is kept and authorised again, one more code is minted in it *)
+        let s1 := upd_grant prev (regrant c (now s) sc) s in
+        match mint s1 prev Code None None (Some 1) (Some (c_code_mints c)) (c_code_exp c) with
+        | Ok (s2, id) => (s2, OAuthz id (filter_scopes c cl sc))
+        | _ => (s1, OExc)
+        end
+      else
+        (* any difference: a new grant for the cookie's user under the same authentication event *)
+        do_authorize_at c s (g_user g) cl sc redir (g_valid_until g)
   end.
 
 Definition push_parsed (s : st) (p : preq) : st := mkSt (now s) (grants s) (toks s) (parsed s ++ [p]).
@@ -515,6 +560,7 @@ Definition step (c : cfg) (s : st) (o : op) : st * out :=
                      | Some g => if existsb (live_user g) (grants s) then (revoke_user g s, OOk) else (s, OExc)
                      | None => (s, OSkip) end
   | Tick d => (mkSt (now s + Z.max 0 d) (grants s) (toks s) (parsed s), OOk)
+  | AuthorizeCookie prev u cl sc redir fresh => do_authorize_cookie c s prev u cl sc redir fresh
   end.
 
 Fixpoint run (c : cfg) (s : st) (ops : list op) : st * list out :=
